@@ -1,12 +1,12 @@
-use std::ops::Bound;
-
 use tracing::{instrument, warn};
 
 use super::data::Data;
-use super::Config;
-use crate::seek::{self, RoughPos};
+use super::DownSampledData;
+use crate::seek;
 use crate::series::data;
-use crate::{CorruptionCallback, Resampler};
+use crate::series::data::inline_meta::with_processor;
+use crate::series::DownSampled;
+use crate::{CorruptionCallback, Pos, Resampler};
 
 #[derive(Debug, thiserror::Error)]
 pub enum Error {
@@ -24,57 +24,72 @@ pub enum Error {
     AppendingToDownsampled(#[source] data::PushError),
 }
 
-#[instrument(skip(corruption_callback))]
-pub(super) fn add_missing_data(
+/// Brings a just opened cache back in step with its source.
+///
+/// The cache holds one line for every `bucket_size` lines of the source, so
+/// the number of source lines it accounts for is known exactly. Every source
+/// line after those is replayed through [`DownSampled::process`]: complete
+/// buckets are appended to the cache and an incomplete last bucket stays in the
+/// accumulator, as if the series had never been closed.
+///
+/// If the source lost lines (a torn write that got repaired) the cache can be
+/// ahead. When only its last bucket reaches beyond the source that bucket is
+/// kept and the next lines pushed to the source, which it already accounts for,
+/// are skipped. If it is further ahead it is rebuild from scratch.
+#[instrument(skip(source, downsampled, corruption_callback))]
+pub(super) fn add_missing_data<R>(
     source: &mut Data,
-    downsampled: &mut Data,
-    config: &Config,
-    resampler: &mut impl Resampler,
+    downsampled: &mut DownSampledData<R>,
     corruption_callback: &mut Option<CorruptionCallback>,
-) -> Result<(), Error> {
-    let start_bound = match downsampled.last_time() {
-        Some(ts) => Bound::Excluded(ts),
-        None => Bound::Unbounded,
-    };
-    let seek = match RoughPos::new(source, start_bound, Bound::Unbounded) {
-        Ok(seek) => seek,
-        Err(seek::Error::EmptyFile) => return Ok(()),
-        Err(other) => return Err(Error::SeekingSource(other)),
-    };
-    let Some(seek) = seek.refine(source)? else {
-        if !downsampled.is_empty() {
-            warn!("Repairing downsampled data cache, it is not empty but the source is");
-            downsampled.clear().map_err(Error::ClearingDownsampled)?;
-        }
+) -> Result<(), Error>
+where
+    R: Resampler + Clone + Send + 'static,
+    R::State: Send + 'static,
+{
+    let bucket_size = downsampled.config.bucket_size as u64;
+    let in_source = source.len();
+    let mut accounted_for = downsampled.data.len() * bucket_size;
+
+    if accounted_for >= in_source + bucket_size {
+        warn!("Repairing downsampled data cache, it is ahead of the source");
+        downsampled
+            .data
+            .clear()
+            .map_err(Error::ClearingDownsampled)?;
+        accounted_for = 0;
+    }
+    if accounted_for >= in_source {
+        downsampled.lines_to_skip = accounted_for - in_source;
+        return Ok(());
+    }
+
+    let Some((start, first_full_ts)) = source.line_pos(accounted_for) else {
         return Ok(());
     };
-
-    let mut timestamps = Vec::new();
-    let mut data = Vec::new();
-    source
-        .read_resampling(
-            seek,
-            corruption_callback,
-            resampler,
-            config.bucket_size,
-            &mut timestamps,
-            &mut data,
-        )
-        .map_err(Error::ReadingSource)?;
-
-    if !timestamps.is_empty() {
-        warn!(
-            "Repairing downsampled data cache, it is missing {} item(s)",
-            timestamps.len()
-        );
+    let seek = Pos {
+        start,
+        end: source.data_len,
+        first_full_ts,
+    };
+    warn!(
+        "Repairing downsampled data cache, it is missing {} source line(s)",
+        in_source - accounted_for
+    );
+    let res = source.file_handle.read_with_processor(
+        seek,
+        corruption_callback,
+        |ts, line| downsampled.process(ts, line),
+    );
+    match res {
+        Ok(()) => Ok(()),
+        Err(with_processor::Error::Io(e)) => {
+            Err(Error::ReadingSource(data::ReadError::Io(e)))
+        }
+        Err(with_processor::Error::Processor(e)) => {
+            Err(Error::AppendingToDownsampled(e))
+        }
+        Err(with_processor::Error::CorruptMetaSection) => {
+            Err(Error::ReadingSource(data::ReadError::CorruptMetaSection))
+        }
     }
-
-    for (ts, item) in timestamps.into_iter().zip(data.into_iter()) {
-        let bytes = resampler.encode_item(&item);
-        downsampled
-            .push_data(ts, &bytes)
-            .map_err(Error::AppendingToDownsampled)?;
-    }
-
-    Ok(())
 }
